@@ -319,7 +319,9 @@ async fn probe_all(w: &mut World, case: &Case, t: u64, acc: &mut Acc) {
                     "token-accepted",
                     "end-user",
                     r.is_ok(),
-                    &r.err().map(|e| short_err(&e)).unwrap_or_default(),
+                    &r.err()
+                        .map(|e| format!("{} cred={:?} t-issue={} exp-issue={:?}", short_err(&e), case.cred, t - l, uat_exp.map(|x| x - l)))
+                        .unwrap_or_default(),
                 );
             }
         }
@@ -728,7 +730,7 @@ async fn ldap_frontend_profile(acc: &mut Acc, seed: u64) {
 }
 
 pub fn run(args: Args) {
-    let rounds: u64 = args.tier.pick(10, 300);
+    let rounds: u64 = args.tier.pick(10, 200);
     let mut run = Run::new(
         args.clone(),
         "exploration",
